@@ -280,3 +280,154 @@ Example C05_gen_witness :
   go_search_Ingestor_paginateIDs [10; 11]%Z (-1) 2 = GoSem.Panic /\
   go_seq_Less (zid (5, 1)%N) (zid (5, 2)%N) = true.
 Proof. vm_compute. repeat split; reflexivity. Qed.
+
+(* ------------------------------------------------------------------ field aggregations (ModelAgg.v)
+   sum / min / max / avg ... group by: the mergeable state per bin (Total, NotExists, Sum, Min, Max) *)
+From C05 Require Import ModelAgg ProofsAgg ModelDocs ProofsDocs.
+Close Scope N_scope.
+
+(* thm:C05_field_aggs_partition — however the documents fs are split over fractions, whichever fractions the
+   range filter keeps (a dropped fraction has no hit), in WHATEVER order the kept fractions are searched
+   (any permutation: both search orders, any tie order), for every FractionsPerIteration (0 = all): the
+   aggregation state SearchDocs accumulates by pairwise merges (SamplesContainer.Merge per bin, NotExists
+   included) is exactly the state ONE fraction holding everything computes; never out of fuel. Every stored
+   copy of a document counts (MergeQPRs never repairs an aggregation). *)
+Theorem C05_field_aggs_partition :
+  forall (p : params) (fs : list afrac) (keep : afrac -> bool) (prepared : list afrac) (fpi : nat),
+    (forall f, In f fs -> keep f = false -> ahits p f = []) ->
+    Permutation prepared (filter keep fs) ->
+    search_fagg p fpi prepared = Ok (frac_fagg p (concat fs)).
+Proof. exact field_aggs_partition. Qed.
+Print Assumptions C05_field_aggs_partition.
+
+(* The same through the proxy: s shards, each answered by one replica with its own fraction layout searched
+   in any valid order, the shards' partial results ARRIVING IN ANY ORDER (they are collected from a channel):
+   the merged state is the state of one fraction holding the documents of all answering replicas. *)
+Theorem C05_field_aggs_shards :
+  forall p fpi (layouts answers arrived : list (list afrac)),
+    Forall2 (avalid_prep p) layouts answers ->
+    Permutation arrived answers ->
+    proxy_fagg p fpi arrived = Ok (frac_fagg p (concat (concat layouts))).
+Proof. exact field_aggs_shards. Qed.
+Print Assumptions C05_field_aggs_shards.
+
+(* What the one-fraction state is, bin by bin (the direct_ok clause of the CAggSearch / CAggProxy spec
+   checkers): the bin of group k exists iff some hit has group k; Total = number of its hits with the field,
+   NotExists = number of its hits without, Sum / Min / Max over the values (sentinels 2^63 / -2^63 when
+   there is none); the aggregation's own NotExists = hits with the field but without a group. *)
+Theorem C05_field_aggs_direct : forall p fs k,
+  bins_find k (fa_bins (frac_fagg p (concat fs))) = direct_bin k (ahits p (concat fs))
+  /\ fa_ne (frac_fagg p (concat fs)) = direct_ne (ahits p (concat fs)).
+Proof. exact field_aggs_direct. Qed.
+Print Assumptions C05_field_aggs_direct.
+
+(* Why it works: the container of a document list is a homomorphism into (sc, sc_merge) - merging the
+   containers of two parts is the container of both parts together, in particular when one of them holds
+   only documents WITHOUT the field (Total = 0, NotExists > 0) - and it does not depend on the order of
+   the documents. *)
+Theorem C05_container_merge_hom : forall a b,
+  sc_of (a ++ b) = sc_merge (sc_of a) (sc_of b)
+  /\ (forall b', Permutation b b' -> sc_of b = sc_of b').
+Proof. intros a b. split; [apply sc_of_app | intros b' P; apply sc_fold_perm, P]. Qed.
+Print Assumptions C05_container_merge_hom.
+
+(* thm:C05_shards_replicas, the DOCUMENTS — for every order idx in which searchShard asks the replicas
+   of a shard (identity, any permutation drawn by ShuffleReplicas, in fact ANY index list), with any set of
+   replicas refusing: every listed ID that was reported by the replica that answered (with the source id
+   searchShard returned for it and the name of the fraction holding it as hint) is fetched from THAT
+   replica (a host that is up, whose source id the ID carries), from the fraction the hint names, and the
+   document delivered is the stored one. Source ids are distinct per host (NewIngestor), fraction names
+   distinct per store. *)
+Theorem C05_shards_replicas_docs :
+  forall p (shards : list (list host)) (idxs : list (list nat)) (page : list ids),
+    NoDup (map h_src (concat shards)) ->
+    Forall (fun h => NoDup (map nf_name (h_fracs h))) (concat shards) ->
+    Forall (answered p shards idxs) page ->
+    Forall (fun t => exists h f d,
+              In h (concat shards) /\ h_up h = true /\ h_src h = is_src t
+              /\ In f (h_fracs h) /\ nf_name f = is_hint t
+              /\ In d (nf_docs f) /\ d_id (s_doc d) = is_id t
+              /\ fetch_one (concat shards) t = Some (s_body d)) page.
+Proof. exact docs_fetched. Qed.
+Print Assumptions C05_shards_replicas_docs.
+
+(* ------------------------------------------------------------------ non-vacuity and refuted variants *)
+Definition ag_p : params := mkP 0 5000 10 Desc true 0 false.
+Definition ag_new : afrac := [mkA (mkDoc (2000%N, 0%N) true 1) None; mkA (mkDoc (2001%N, 0%N) true 1) None;
+                              mkA (mkDoc (2002%N, 0%N) true 2) (Some 2%Z)].
+Definition ag_old : afrac := [mkA (mkDoc (1000%N, 0%N) true 1) (Some 5%Z); mkA (mkDoc (1001%N, 0%N) true 1) (Some 7%Z);
+                              mkA (mkDoc (1002%N, 0%N) true 0) (Some 1%Z); mkA (mkDoc (1003%N, 0%N) false 1) (Some 9%Z)].
+Definition ag_out : afrac := [mkA (mkDoc (9000%N, 0%N) true 1) (Some 3%Z)].   (* outside the range: dropped *)
+
+(* hypotheses of C05_field_aggs_partition / _shards are met by a run that is not trivial: the newer
+   fraction holds only documents of group 1 WITHOUT the field, the older one documents with it *)
+Example C05_nonvacuous_field_aggs :
+  let keep := fun f : afrac => match f with mkA (mkDoc (9000%N, _) _ _) _ :: _ => false | _ => true end in
+  (forall f, In f [ag_old; ag_out; ag_new] -> keep f = false -> ahits ag_p f = [])
+  /\ Permutation [ag_new; ag_old] (filter keep [ag_old; ag_out; ag_new])
+  /\ search_fagg ag_p 1 [ag_new; ag_old]
+     = Ok (mkFA [(1%N, mkSC 2 2 12 5 7); (2%N, mkSC 1 0 2 2 2)] 1)
+  /\ Forall2 (avalid_prep ag_p) [[ag_old; ag_out]; [ag_new]] [[ag_old]; [ag_new]]
+  /\ proxy_fagg ag_p 0 [[ag_new]; [ag_old]]
+     = Ok (mkFA [(1%N, mkSC 2 2 12 5 7); (2%N, mkSC 1 0 2 2 2)] 1).
+Proof.
+  intros keep. split; [|split; [|split; [|split]]].
+  - intros f [<-|[<-|[<-|[]]]] H; try discriminate H. reflexivity.
+  - simpl. apply perm_swap.
+  - vm_compute. reflexivity.
+  - constructor; [|constructor; [|constructor]].
+    + exists keep. split; [|simpl; apply Permutation_refl].
+      intros f [<-|[<-|[]]] H; try discriminate H. reflexivity.
+    + exists (fun _ => true). split; [intros; discriminate | simpl; apply Permutation_refl].
+  - vm_compute. reflexivity.
+Qed.
+
+(* The "take the source over when nothing is collected here yet" merge (sc_merge_takeover, NOT the code)
+   is refuted by two fractions: the part merged first holds only documents of group 1 without the field;
+   its NotExists count is lost, and the result depends on the order of the search. *)
+Example C05_field_aggs_takeover_refuted :
+  exists (p : params) (f1 f2 : afrac) r12 r21,
+    search_fagg_with sc_merge_takeover p 0 [f1; f2] = Ok r12
+    /\ search_fagg_with sc_merge_takeover p 0 [f2; f1] = Ok r21
+    /\ r12 <> frac_fagg p (concat [f1; f2])
+    /\ r21 = frac_fagg p (concat [f1; f2])
+    /\ search_fagg p 0 [f1; f2] = Ok (frac_fagg p (concat [f1; f2])).
+Proof.
+  exists ag_p, [mkA (mkDoc (2000%N, 0%N) true 1) None], [mkA (mkDoc (1000%N, 0%N) true 1) (Some 5%Z)].
+  eexists. eexists. split; [vm_compute; reflexivity|]. split; [vm_compute; reflexivity|].
+  split; [vm_compute; discriminate|]. split; vm_compute; reflexivity.
+Qed.
+
+(* documents: one shard, two replicas holding the same document in fractions of different names;
+   ShuffleReplicas asks replica 1 first *)
+Definition dc_d : sdoc := mkSD (mkDoc (1000%N, 1%N) true 0) 77%N.
+Definition dc_hosts : list host := [mkH 10%N true [mkNF 100%N [dc_d]]; mkH 11%N true [mkNF 200%N [dc_d]]].
+
+Example C05_nonvacuous_docs :
+  let page := [mkIS (1000%N, 1%N) 11%N 200%N] in
+  NoDup (map h_src (concat [dc_hosts]))
+  /\ Forall (fun h => NoDup (map nf_name (h_fracs h))) (concat [dc_hosts])
+  /\ Forall (answered ag_p [dc_hosts] [[1%nat; 0%nat]]) page
+  /\ map (fetch_one (concat [dc_hosts])) page = [Some 77%N].
+Proof.
+  intros page. split; [|split; [|split]].
+  - simpl. repeat constructor; simpl; intuition discriminate.
+  - simpl. repeat constructor; simpl; intuition.
+  - constructor; [|constructor]. exists dc_hosts, [1%nat; 0%nat]. eexists. eexists.
+    split; [simpl; auto|]. split; [vm_compute; reflexivity|]. split; [reflexivity|]. simpl. auto.
+  - vm_compute. reflexivity.
+Qed.
+
+(* The variant that attaches the source of hosts[i] instead of hosts[idx[i]] (search_shard_wrong, NOT the
+   code) is refuted as soon as the shuffle puts another replica first: the ID is attributed to replica 0
+   although replica 1 answered (the hint names replica 1's fraction), and the fetch finds nothing. *)
+Example C05_docs_wrong_source_refuted :
+  exists h s, search_shard_wrong dc_hosts [1%nat; 0%nat] 0%nat = Some (h, s)
+    /\ In ((1000%N, 1%N), 200%N) (host_hits ag_p h)
+    /\ s <> h_src h
+    /\ fetch_one dc_hosts (mkIS (1000%N, 1%N) s 200%N) = None
+    /\ search_shard dc_hosts [1%nat; 0%nat] 0%nat = Some (h, h_src h).
+Proof.
+  eexists. eexists. split; [vm_compute; reflexivity|]. split; [simpl; auto|].
+  split; [vm_compute; discriminate|]. split; vm_compute; reflexivity.
+Qed.
